@@ -14,6 +14,7 @@ func init() {
 			"R11.2 what auth saw is what is sent: the GetBody override is installed whenever the body is not the request's own buffer, its first call copies the streaming body into the buffer, closes it, rebinds the body variable to the buffer before returning the bytes, later calls serve the buffer, copy/close errors are returned in preference to the auth error, and the body given to the http.Request is read from that variable after authentication; " +
 			"R11.3 the Content-Type header is set from the chosen media type on every body-carrying path, and for multipart from the boundary of the very multipart.Writer that writes into the pipe whose read end is the body; R11.4 every form field value and every file is visited exactly by construction of the loops (no iteration skips WriteField / CreatePart+Copy), with the part header built from escapeQuotes(field name) and escapeQuotes(filepath.Base(file name)), a declared ContentType() taking precedence over sniffing, and escapeQuotes always applying the backslash-and-quote replacer; R11.5 NamedReader forwards Read/Close/Name and wraps non-closers in io.NopCloser. " +
 			"R11.5 also: NamedReader always returns a wrapper allocated by this call. " +
+			"R11.3 also: whenever there is a payload the Content-Type header is set unconditionally, and a payload that is no reader always goes through the producer. " +
 			"NOT decided: byte-for-byte equality of what net/http then sends.",
 		Run: runC11,
 	})
